@@ -42,7 +42,8 @@ def check(case):
     est = [to_map(d, ego) for d in est_e] if ego else est_e
     gt = [to_map(d, ego) for d in gt_e] if ego else gt_e
     try:
-        fr, eo, go, res = frames.frame_result(est, gt, ego=ego, task=case["task"], targets=targets, crit=crit, pass_thr=case["pass_thr"], policy=case["policy"])
+        fr, eo, go, res = frames.frame_result(est, gt, ego=ego, task=case["task"], targets=targets, crit=crit, pass_thr=case["pass_thr"], policy=case["policy"],
+                                              pass_targets=case.get("pass_targets"))
     except Exception as ex:
         return f"evaluation raised {type(ex).__name__}: {ex}"
     pf = fr.pass_fail_result
@@ -74,7 +75,7 @@ def check(case):
         e, g, pol = r.estimated_object.semantic_label.label, r.ground_truth_object.semantic_label.label, case["policy"]
         return pol == "ALLOW_ANY" or e == g or (pol == "ALLOW_UNKNOWN" and e.value == "unknown")
     def thr(r):
-        return case["pass_thr"][targets.index(r.ground_truth_object.semantic_label.label.value)]
+        return case["pass_thr"][(case.get("pass_targets") or targets).index(r.ground_truth_object.semantic_label.label.value)]
     for r in tp:
         if r.ground_truth_object.semantic_label.is_fp() or not compatible(r) or not (r.plane_distance.value < thr(r)):
             return f"a TP whose pair is not label-compatible or whose plane distance {r.plane_distance.value:.3f} does not beat the threshold {thr(r)}"
@@ -130,8 +131,14 @@ def gen(rnd):
             targets = targets + ["false_positive"]
             n = len(targets)
             crit = {k: v + [v[0]] for k, v in crit.items()}
-    return dict(est=est, gt=gt, ego=ego, targets=targets, crit=crit, task=task,
+    case = dict(est=est, gt=gt, ego=ego, targets=targets, crit=crit, task=task,
                 pass_thr=[rnd.choice([0.5, 2.0])] * n, policy=rnd.choice(["DEFAULT", "ALLOW_UNKNOWN", "ALLOW_ANY"]))
+    if rnd.random() < 0.4:
+        # the pass/fail configuration lists the labels in its own order, with a threshold per label (the two configurations are separate objects)
+        order = list(targets)
+        rnd.shuffle(order)
+        case.update(pass_targets=order, pass_thr=[rnd.choice([0.3, 0.5, 2.0, 4.0]) for _ in order])
+    return case
 
 
 def search(item, seed):
